@@ -315,7 +315,7 @@ func faultOneMode(run *core.Run, sc *Scenario, w *World, from *Node, slot uint64
 	// every engine verdict vector (3^E, E small), which includes every single-call fault
 	// verdict kinds: 0 valid, 1 invalid, 2 plain error, 3 error wrapping context.Canceled, 4 error wrapping
 	// context.DeadlineExceeded (an engine client that timed out on its own, while the caller's context is alive)
-	const kinds = 5
+	const kinds = 6 // 5: the engine client reports an error together with valid=true (the error wins)
 	if E > 0 && E <= 4 {
 		total := 1
 		for i := 0; i < E; i++ {
@@ -341,6 +341,8 @@ func faultOneMode(run *core.Run, sc *Scenario, w *World, from *Node, slot uint64
 						return false, fmt.Errorf("engine request failed: %w", context.Canceled)
 					case 4:
 						return false, fmt.Errorf("engine request failed: %w", context.DeadlineExceeded)
+					case 5:
+						return true, errors.New("engine answered, then the connection failed (injected)")
 					}
 				}
 				return true, nil
@@ -350,9 +352,9 @@ func faultOneMode(run *core.Run, sc *Scenario, w *World, from *Node, slot uint64
 			atomic.AddInt64(&st.Runs, 1)
 			atomic.AddInt64(&st.EngineFaults, 1)
 			if pm != "" {
-				rep("panic/engine-fault", fmt.Sprintf("engine verdicts %v (0=valid,1=invalid,2=error,3=error wrapping context.Canceled,4=error wrapping DeadlineExceeded): %s", vec, pm))
+				rep("panic/engine-fault", fmt.Sprintf("engine verdicts %v (0=valid,1=invalid,2=error,3=error wrapping context.Canceled,4=error wrapping DeadlineExceeded,5=valid together with an error): %s", vec, pm))
 			} else if err == nil {
-				rep("engine-fault-swallowed", fmt.Sprintf("engine verdicts %v (0=valid,1=invalid,2=error,3=error wrapping context.Canceled,4=error wrapping DeadlineExceeded) over calls %v, but the transition reports success", vec, methods(plainCalls)))
+				rep("engine-fault-swallowed", fmt.Sprintf("engine verdicts %v (0=valid,1=invalid,2=error,3=error wrapping context.Canceled,4=error wrapping DeadlineExceeded,5=valid together with an error) over calls %v, but the transition reports success", vec, methods(plainCalls)))
 			}
 		}
 	}
